@@ -6,6 +6,7 @@ import (
 	"fmt"
 	"os"
 	"strconv"
+	"strings"
 
 	header "github.com/celestiaorg/go-header"
 
@@ -104,4 +105,27 @@ func loadCorpus(prop string) []string {
 		}
 	}
 	return outp
+}
+
+// kvOf parses the "k=v" tokens of the input side of a case line.
+func kvOf(line string) map[string]string {
+	out := map[string]string{}
+	if i := strings.Index(line, " => "); i >= 0 {
+		line = line[:i]
+	}
+	for _, t := range strings.Fields(line) {
+		if j := strings.Index(t, "="); j > 0 {
+			out[t[:j]] = t[j+1:]
+		}
+	}
+	return out
+}
+
+func atoiList(s string) []int {
+	var out []int
+	for _, f := range strings.Split(s, ",") {
+		v, _ := strconv.Atoi(f)
+		out = append(out, v)
+	}
+	return out
 }
